@@ -20,3 +20,22 @@ func Side(leftDone bool) int {
 	}
 	return 0
 }
+
+// JSONWorkerFn, when set, is called by a JSON parser worker after it has parsed a batch and before it hands the
+// batch to the reader's output channel (firstLine = line number of the first row of the batch).
+var JSONWorkerFn func(firstLine int, lines int)
+
+func JSONWorker(firstLine int, lines int) {
+	if JSONWorkerFn != nil {
+		JSONWorkerFn(firstLine, lines)
+	}
+}
+
+// JSONReaderFn, when set, is called by the line reader goroutine before it enqueues a batch for parsing.
+var JSONReaderFn func(firstLine int, lines int)
+
+func JSONReader(firstLine int, lines int) {
+	if JSONReaderFn != nil {
+		JSONReaderFn(firstLine, lines)
+	}
+}
